@@ -3,6 +3,8 @@ package c08
 import (
 	"testing"
 
+	"github.com/gookit/rux"
+
 	"verifharness/chain"
 )
 
@@ -26,6 +28,25 @@ func TestRegress(t *testing.T) {
 	for i, ops := range cases {
 		if msg := one(ops...); msg != "" {
 			t.Errorf("case %d: %s", i, msg)
+		}
+	}
+}
+
+// D19: a HandlerFunc used directly as an http.Handler must commit the recorded status.
+func TestRegressHandlerFuncServeHTTP(t *testing.T) {
+	for _, ops := range [][]chain.Op{
+		{{K: chain.OpStatus, N: 404}},
+		{},
+		{{K: chain.OpRespWriteHeader, N: 204}},
+		{{K: chain.OpStatus, N: 403}, {K: chain.OpFlush}},
+	} {
+		w := chain.NewWorld()
+		s := w.NewScript("hf", ops...)
+		st := w.NewRequest("GET", "/direct")
+		rux.HandlerFunc(w.Handler(s)).ServeHTTP(st.Rec, st.Req)
+		want, _ := chain.ModelDispatch([]*chain.Script{s}, chain.Hooks{}, chain.NewRec(), st.Req, nil, false)
+		if st.Rec.Log() != want.Log {
+			t.Errorf("%s: underlying writer got %q, want %q", s, st.Rec.Log(), want.Log)
 		}
 	}
 }
